@@ -20,7 +20,7 @@ def _sid(gen, vt, victim_is_server):
     k = rng.randrange(12)
     live = [s for s in vt.streams.values()]
     hot = getattr(gen, 'hot_ids', {}).get('s' if victim_is_server else 'c')
-    if hot and rng.random() < 0.15:
+    if hot and rng.random() < 0.3:
         return rng.choice(hot)          # an id the victim's application named in a call that was refused
     if getattr(gen, 'adv_new_streams', 0) and rng.random() < gen.adv_new_streams:
         return vt.hi_peer + 2 if vt.hi_peer else (1 if peer_parity else 2)
